@@ -568,7 +568,7 @@ FLOW_THROUGH = (
     'std::ops::FromResidual::from_residual', 'std::result::Result::map_err', 'std::result::Result::map',
     'std::option::Option::map', 'std::option::Option::ok_or', 'std::result::Result::ok', 'std::option::Option::take',
     'std::option::Option::unwrap', 'std::result::Result::unwrap', 'std::option::Option::as_ref', 'std::option::Option::as_mut',
-    'std::clone::Clone::clone', 'std::option::Option::filter', 'std::option::Option::as_deref', 'std::string::String::as_str',
+    'std::clone::Clone::clone', 'std::option::Option::as_deref', 'std::string::String::as_str',
     'std::ops::Deref::deref', 'std::ops::DerefMut::deref_mut', 'std::convert::AsRef::as_ref', 'std::future::IntoFuture::into_future',
     'std::pin::Pin::new_unchecked', 'std::borrow::ToOwned::to_owned', 'std::string::ToString::to_string',
     'std::option::Option::cloned', 'std::option::Option::copied', 'std::option::Option::unwrap_or_default',
@@ -592,7 +592,7 @@ def _flow_through(term, extra=()):
     return False
 
 
-def sources(an, op, extra_through=(), limit=400):
+def sources(an, op, extra_through=(), limit=400, deep=False):
     """terminal origins of the value in `op`, following every definition of every local on the way.
     returns a set of tuples: ('call', name, bb) | ('const', value) | ('arg', name) | ('field', 'owner.field') |
     ('agg', adt::variant, bb) | ('bin', op, bb) | ('upvar', name) | ('unknown', repr)"""
@@ -673,6 +673,10 @@ def sources(an, op, extra_through=(), limit=400):
                 else:
                     nm = strip_generics(t.rcallee or '?')
                     out.add(('call', nm, d[1]))
+                    if deep:
+                        # `deep`: a call's result is also considered to derive from all of its arguments
+                        for a in t.args:
+                            work.append(a)
     return out
 
 
